@@ -36,7 +36,8 @@ def check(sc, r):
     _dead_v, dead = L.thread_deaths(ID, r)   # thread deaths are C05's business; only skip their associations here
     if r.failure:
         return []
-    out = [x for x in L.check_history(ID, r) if not any(("/%s" % d[:3]) in x["sig"] and d in x["msg"] for d in dead)]
+    judge_recv = not (sc["family"] == "F2" and any(st.get("pdu") in ("garbage", "unknown", "raw") or "cut" in st for st in sc["peer"]))
+    out = [x for x in L.check_history(ID, r, judge_recv=judge_recv) if not any(("/%s" % d[:3]) in x["sig"] and d in x["msg"] for d in dead)]
     return out
 
 
